@@ -16,7 +16,7 @@ V0 = {"n": "", "k": "", "s": 0, "m": [], "c": [], "t": "", "num": -1}
 def op0(op, **kw):
     rec = {
         "op": op, "name": "", "raised": "", "lib": True, "none": False, "flag": False, "bytes": [], "ident": "",
-        "attrs": [], "sd": "",
+        "attrs": [], "sd": "", "snames": [], "idx": [],
         "meta": {"ident": "", "station": dict(V0), "epoch": dict(V0), "sats": 0, "cells": 0},
         "sats": [], "cells": [], "layers": [], "names": [],
     }
@@ -55,10 +55,20 @@ def val(name, v, fields):
 
 
 def do_op(msg, op, fields, labelmsm=1, name=None, value=None):
+    rec = op0(op)
+    try:
+        with common.watchdog(30):
+            return _do_op(rec, msg, op, fields, labelmsm, name, value)
+    except common.Watchdog:
+        rec["raised"] = "Watchdog(no termination)"
+        rec["lib"] = False
+        return rec
+
+
+def _do_op(rec, msg, op, fields, labelmsm, name, value):
     from pyrtcm import RTCMMessage, RTCMReader
     from pyrtcm.rtcmhelpers import att2idx, att2name, datadesc, parse_4076_201, parse_msm
 
-    rec = op0(op)
     try:
         if op == "serialize":
             rec["bytes"] = list(msg.serialize())
@@ -108,6 +118,35 @@ def do_op(msg, op, fields, labelmsm=1, name=None, value=None):
                         "sin": [val("IDF040", v, fields) for v in d.get("Sine Coefficients", [])],
                     })
                 rec["layers"] = layers
+        elif op == "strshape":
+            import re as _re
+
+            txt = str(msg)
+            m = _re.match(r"^<RTCM\(([^,)]*)(?:, (.*))?\)>$", txt, _re.S)
+            body = (m.group(2) or "") if m else ""
+            rec["ident"] = m.group(1) if m else "?"
+            rec["flag"] = body.endswith("Not_Yet_Implemented")
+            pubs = [k for k, _ in decode_rec.public_attrs(msg)]
+            # names in the order they appear (each "name=" must be found after the previous one)
+            pos, names = 0, []
+            for k in pubs:
+                j = body.find(k + "=", pos)
+                if j < 0:
+                    break
+                names.append(k)
+                pos = j + len(k) + 1
+            rec["snames"] = names
+        elif op == "get_bit":
+            from pyrtcm.rtcmhelpers import get_bit
+
+            pl = bytes(msg.payload)
+            idx = sorted({0, 7, 8, 11, len(pl) * 8 - 1} | {(i * 37) % (len(pl) * 8) for i in range(12)}) if pl else []
+            rec["idx"] = idx
+            rec["bytes"] = [int(get_bit(pl, i)) for i in idx]
+        elif op == "len2bytes":
+            from pyrtcm.rtcmhelpers import len2bytes
+
+            rec["bytes"] = list(len2bytes(bytes(msg.payload)))
         elif op == "names":
             names = []
             for k, _ in decode_rec.public_attrs(msg):
